@@ -105,6 +105,11 @@ def single_specs():
     for prefix in ('p', ''):
         for form in ('string', 'url'):
             out.append([('namespace', prefix, 'http://p', form), ('style', ['p|a' if prefix else 'a@default'], ['x:a'])])
+            # namespaces x nesting: a prefixed / default-namespaced name denotes the same pair at every @media depth
+            ns_st = ('style', ['p|a', 'a>b'] if prefix else ['a@default'], ['x:a'])
+            out.append([('namespace', prefix, 'http://p', form), ('media', ['print'], [ns_st])])
+            out.append([('namespace', prefix, 'http://p', form), ('media', ['print'], [('media', ['not tv'], [ns_st]), ns_st])])
+            out.append([('namespace', prefix, 'http://p', form), ('media', ['print'], [('media', ['not tv'], [('media', ['tv'], [ns_st])])])])
     for sel in ('', ':first', 'n:left', 'n'):
         out.append([('page', sel, ['margin:0 1px'], [])])
         out.append([('page', sel, ['margin:0 1px'], [('top-left', ['x:a'])])])
